@@ -128,6 +128,89 @@ def build(spec: tuple) -> Any:
     raise ValueError(kind)
 
 
+def containers(a: Any, is_rec: bool) -> Dict[str, Any]:
+    """Every container of the library that goes by identity, holding just `a`."""
+    from zeroconf import DNSCache
+    from zeroconf._dns import DNSRRSet
+    if not is_rec:
+        # the consumer of question identity: the duplicate-question history (a question asked a moment ago is the one
+        # being asked now iff they are the same question)
+        from zeroconf._history import QuestionHistory
+        hist = QuestionHistory()
+        hist.add_question_at_time(a, 1000.0, set())
+        return {"set": {a}, "hist": hist}
+    cache = DNSCache()
+    cache.async_add_records([a])
+    return {"set": {a}, "rr": DNSRRSet([a]), "cache": cache, "msg": _Answers([a])}
+
+
+def pair_problems(a: Any, ia: tuple, b: Any, ib: tuple, cont: Dict[str, Any], is_rec: bool) -> List[str]:
+    """Container behaviour: b is found in a set / RRSet / cache / history holding a iff a and b are the same record."""
+    from zeroconf import DNSPointer
+    from zeroconf._dns import DNSNsec
+    bad: List[str] = []
+    want = ia == ib
+    sa = cont["set"]
+    if not is_rec:
+        if (b in sa) != want:
+            bad.append("question set membership disagrees with identity")
+        asked = cont["hist"].suppresses(b, 1500.0, set())
+        if bool(asked) != want:
+            bad.append(f"question history: asked 500 ms ago is {bool(asked)}, same question: {want}")
+        return bad
+    rr, cache, msg_a = cont["rr"], cont["cache"], cont["msg"]
+    if (b in sa) != want:
+        bad.append(f"set membership {b in sa} but identity says {want}")
+    sup = rr.suppresses(b)
+    want_sup = want and a.ttl > b.ttl / 2
+    if sup != want_sup:
+        bad.append(f"DNSRRSet.suppresses is {sup}, expected {want_sup}")
+    # the linear known-answer path (DNSRecord.suppressed_by / DNSOutgoing.add_answer) must agree with it
+    # (through the public entry point: is b suppressed by a message whose answers are [a]?)
+    sup2 = b.suppressed_by(msg_a)
+    if bool(sup2) != want_sup:
+        bad.append(f"DNSRecord._suppressed_by_answer is {sup2}, expected {want_sup}")
+    g = cache.async_get_unique(b)
+    if (g is a) != want:
+        bad.append(f"DNSCache.async_get_unique found={g is a}, identity says {want}")
+    same_name = ia[1] == ib[1]
+    if (a in cache.entries_with_name(b.name)) != same_name:
+        bad.append(f"DNSCache.entries_with_name finds the record: {not same_name}, names equal: {same_name}")
+    want_d = same_name and a.type == b.type and a.class_ == b.class_
+    if (a in cache.get_all_by_details(b.name, b.type, b.class_)) != want_d:
+        bad.append(f"DNSCache.get_all_by_details finds the record: {not want_d}, expected {want_d}")
+    if want_d and hasattr(a, "set_created_ttl") and hasattr(cache, "async_mark_unique_records_older_than_1s_to_expire"):
+        # the cache-flush rule (RFC 6762 s.10.2) goes by the same identity: a record received with the flush bit
+        # displaces the cached records of its name, type and class - in any spelling - that are not the same record
+        c0, t0_ = a.created, a.ttl
+        a.set_created_ttl(1000.0, 120)
+        cache.async_mark_unique_records_older_than_1s_to_expire({(b.name, b.type, b.class_)}, [b], 7000.0)
+        marked = (a.created, a.ttl) == (7000.0, 1)
+        a.set_created_ttl(c0, t0_)
+        if marked != (not want):
+            bad.append(f"cache flush by the second record marks the cached first one: {marked}, same record: {want}")
+    if same_name and isinstance(b, DNSPointer) and hasattr(cache, "current_entry_with_name_and_alias") \
+            and hasattr(a, "set_created_ttl") and (isinstance(a, DNSPointer) or a.type not in (5, 12)):
+        # (the vocabulary also holds objects whose class and type code disagree - a text record carrying the
+        # type code of a pointer; the wire cannot produce those, they are left out here)
+        # "is this instance already advertised under this type?" - answered by pointer records (type PTR) only,
+        # names compared case-insensitively; the class is not part of the question asked (either answer accepted)
+        from zeroconf._utils.time import current_time_millis as _ctm
+        c0, t0_ = a.created, a.ttl
+        a.set_created_ttl(_ctm(), 120)
+        hit = cache.current_entry_with_name_and_alias(b.name, b.alias)
+        a.set_created_ttl(c0, t0_)
+        want_hit = isinstance(a, DNSPointer) and a.type == 12 and a.alias.lower() == b.alias.lower()
+        if (hit is a) != want_hit and not (want_hit is False and hit is None):
+            bad.append(f"DNSCache.current_entry_with_name_and_alias({b.name!r}, {b.alias!r}) finds the cached "
+                       f"record: {hit is a}, a pointer record (type PTR) with that target: {want_hit}")
+    if not isinstance(b, DNSNsec):
+        g2 = cache.get(b)
+        if (g2 is a) != want:
+            bad.append(f"DNSCache.get found={g2 is a}, identity says {want}")
+    return bad
+
+
 def run(tier: str, seed: int) -> Tuple[Stats, str, List[str], Dict[str, Any]]:
     install_seams()
     from zeroconf import DNSCache, DNSPointer
@@ -162,78 +245,10 @@ def run(tier: str, seed: int) -> Tuple[Stats, str, List[str], Dict[str, Any]]:
             if want and hash(a) != hash(b):
                 bad.append((i, j, "equal records with different hashes"))
             out["equal" if want else "unequal"] += 1
-        # container behaviour: b in a set / dict / RRSet / cache is found by a iff a == b
-        if is_rec_a:
-            sa = {a}
-            rr = DNSRRSet([a])
-            cache = DNSCache()
-            cache.async_add_records([a])
-            msg_a = _Answers([a])
-            for j in range(nrec):
-                b = objs[j]
-                want = ia == idents[j]
-                if (b in sa) != want:
-                    bad.append((i, j, f"set membership {b in sa} but identity says {want}"))
-                sup = rr.suppresses(b)
-                want_sup = want and a.ttl > b.ttl / 2
-                if sup != want_sup:
-                    bad.append((i, j, f"DNSRRSet.suppresses is {sup}, expected {want_sup}"))
-                # the linear known-answer path (DNSRecord.suppressed_by / DNSOutgoing.add_answer) must agree with it
-                # (through the public entry point: is b suppressed by a message whose answers are [a]?)
-                sup2 = b.suppressed_by(msg_a)
-                if bool(sup2) != want_sup:
-                    bad.append((i, j, f"DNSRecord._suppressed_by_answer is {sup2}, expected {want_sup}"))
-                g = cache.async_get_unique(b)
-                if (g is a) != want:
-                    bad.append((i, j, f"DNSCache.async_get_unique found={g is a}, identity says {want}"))
-                same_name = ia[1] == idents[j][1]
-                if (a in cache.entries_with_name(b.name)) != same_name:
-                    bad.append((i, j, f"DNSCache.entries_with_name finds the record: {not same_name}, names equal: {same_name}"))
-                want_d = same_name and a.type == b.type and a.class_ == b.class_
-                if (a in cache.get_all_by_details(b.name, b.type, b.class_)) != want_d:
-                    bad.append((i, j, f"DNSCache.get_all_by_details finds the record: {not want_d}, expected {want_d}"))
-                if want_d and hasattr(a, "set_created_ttl") and hasattr(cache, "async_mark_unique_records_older_than_1s_to_expire"):
-                    # the cache-flush rule (RFC 6762 s.10.2) goes by the same identity: a record received with the flush bit
-                    # displaces the cached records of its name, type and class - in any spelling - that are not the same record
-                    c0, t0_ = a.created, a.ttl
-                    a.set_created_ttl(1000.0, 120)
-                    cache.async_mark_unique_records_older_than_1s_to_expire({(b.name, b.type, b.class_)}, [b], 7000.0)
-                    marked = (a.created, a.ttl) == (7000.0, 1)
-                    a.set_created_ttl(c0, t0_)
-                    if marked != (not want):
-                        bad.append((i, j, f"cache flush by the second record marks the cached first one: {marked}, same record: {want}"))
-                if same_name and isinstance(b, DNSPointer) and hasattr(cache, "current_entry_with_name_and_alias") \
-                        and hasattr(a, "set_created_ttl") and (isinstance(a, DNSPointer) or a.type not in (5, 12)):
-                    # (the vocabulary also holds objects whose class and type code disagree - a text record carrying the
-                    # type code of a pointer; the wire cannot produce those, they are left out here)
-                    # "is this instance already advertised under this type?" - answered by pointer records (type PTR) only,
-                    # names compared case-insensitively; the class is not part of the question asked (either answer accepted)
-                    from zeroconf._utils.time import current_time_millis as _ctm
-                    c0, t0_ = a.created, a.ttl
-                    a.set_created_ttl(_ctm(), 120)
-                    hit = cache.current_entry_with_name_and_alias(b.name, b.alias)
-                    a.set_created_ttl(c0, t0_)
-                    want_hit = isinstance(a, DNSPointer) and a.type == 12 and a.alias.lower() == b.alias.lower()
-                    if (hit is a) != want_hit and not (want_hit is False and hit is None):
-                        bad.append((i, j, f"DNSCache.current_entry_with_name_and_alias({b.name!r}, {b.alias!r}) finds the cached "
-                                          f"record: {hit is a}, a pointer record (type PTR) with that target: {want_hit}"))
-                if not isinstance(b, DNSNsec):
-                    g2 = cache.get(b)
-                    if (g2 is a) != want:
-                        bad.append((i, j, f"DNSCache.get found={g2 is a}, identity says {want}"))
-        else:
-            sa = {a}
-            # the consumer of question identity: the duplicate-question history (a question asked a moment ago is the one
-            # being asked now iff they are the same question)
-            from zeroconf._history import QuestionHistory
-            hist = QuestionHistory()
-            hist.add_question_at_time(a, 1000.0, set())
-            for j in range(nrec, n):
-                if (objs[j] in sa) != (ia == idents[j]):
-                    bad.append((i, j, "question set membership disagrees with identity"))
-                asked = hist.suppresses(objs[j], 1500.0, set())
-                if bool(asked) != (ia == idents[j]):
-                    bad.append((i, j, f"question history: asked 500 ms ago is {bool(asked)}, same question: {ia == idents[j]}"))
+        cont = containers(a, is_rec_a)
+        for j in (range(nrec) if is_rec_a else range(nrec, n)):
+            for why in pair_problems(a, ia, objs[j], idents[j], cont, is_rec_a):
+                bad.append((i, j, why))
         return n, out, bad[:10]
 
     results = pmap(row, list(range(n)))
@@ -246,7 +261,8 @@ def run(tier: str, seed: int) -> Tuple[Stats, str, List[str], Dict[str, Any]]:
         for (i, j, why) in bad:
             if stats.room({"check": why.split(",")[0][:40]}, 100):
                 stats.violations.append(Violation(f"C20 {specs[i]} vs {specs[j]}: {why}",
-                                                  {"a": specs[i], "b": specs[j], "why": why, "same_identity": idents[i] == idents[j]},
+                                                  {"a": specs[i], "b": specs[j], "why": why, "same_identity": idents[i] == idents[j],
+                                                   "ident_a": idents[i], "ident_b": idents[j]},
                                                   {"check": why.split(",")[0][:40]}))
     stats.states = len(set(idents))
     stats.notes["objects"] = n
@@ -270,5 +286,12 @@ def replay(data: Dict[str, Any]) -> int:
     print("recorded:", data["why"], "| identity model says same record:", data["same_identity"])
     bad = (a == b) != data["same_identity"] or (b == a) != (a == b) or (a == b and hash(a) != hash(b)) or \
         ((a in {b}) != data["same_identity"])
-    print("VIOLATION reproduced" if bad else "basic ==/hash/set relations hold on this tree (container checks: rerun the check)")
-    return 1 if bad else 0
+    ia, ib = tuple(data.get("ident_a") or ()), tuple(data.get("ident_b") or ())
+    more: List[str] = []
+    if ia and ib:
+        is_rec = data["a"][0] != "q"
+        more = pair_problems(a, ia, b, ib, containers(a, is_rec), is_rec)
+        for m in more:
+            print("   ", m)
+    print("VIOLATION reproduced" if bad or more else "the recorded pair behaves as the identity model says on this tree")
+    return 1 if bad or more else 0
